@@ -331,6 +331,25 @@ Proof.
   exact (reloaded_selection_is_a_replica ops r l X key sf deny WO L HI ND).
 Qed.
 
+(* NewFromMultihash with a length limit also hands NewLog heads: those heads of the manifest that are among
+   the loaded entries.  For a replica of a well-formed history they are exactly the unreferenced entries of
+   the loaded part (the part is a suffix of the log in clock order: whatever names a loaded entry is newer
+   and therefore loaded too), so this step is admissible as well (Proofs/LimitedReload.v) *)
+From IpfsLog Require Import Proofs.LimitedReload.
+Theorem C10_limited_manifest_reload_is_a_replica (ops : list op) (r : nat) (l : log) (n : Z) (hh : list N) key sf deny :
+  wf ops -> nth_error (s_logs (run ops)) r = Some l ->
+  times_ok (fentries_of l) -> tie_free (fentries_of l) ->
+  let X := last_n n (sort_go cmp_lww false (fentries_of l)) in      (* what C10_manifest says is loaded *)
+  (forall h, In h hh <-> In h (okeys (l_heads l)) /\ In h (map fe_hash X)) ->   (* the manifest heads among it *)
+  let reopen := OOpen r (map fe_hash X) hh (l_id l) key sf deny in
+  owf (ops ++ [reopen]) /\
+  exists lr, nth_error (s_logs (run (ops ++ [reopen]))) (length (s_logs (run ops))) = Some lr /\
+    map fentry_of (ents lr) = X /\ l_id lr = l_id l.
+Proof.
+  intros W L Ht Hf X HH reopen.
+  exact (limited_manifest_reload_is_a_replica ops r l n hh key sf deny (pwf_owf _ (wf_pwf _ W)) L Ht Hf HH).
+Qed.
+
 Print Assumptions C10_min_clock_invariant.
 Print Assumptions C10_fetch_window.
 Print Assumptions C10_schedule_independent.
@@ -347,3 +366,4 @@ Print Assumptions C10_regression_manifest_n0.
 Print Assumptions C10_regression_json_no_trim.
 Print Assumptions C10_regression_fromentry_drops_supplied.
 Print Assumptions C10_limited_reload_is_a_replica.
+Print Assumptions C10_limited_manifest_reload_is_a_replica.
